@@ -38,13 +38,15 @@ type Engine struct{}
 const luaFinding = "C16-lua-lock-leak"
 
 type runner struct {
-	ctx     *hk.RunCtx
-	res     *hk.Result
-	db      *dbProc
-	aborted string // set when the process can no longer be trusted (a goroutine is spinning)
-	known   map[string]bool
-	ids     int
-	hangs   int
+	ctx            *hk.RunCtx
+	res            *hk.Result
+	db             *dbProc
+	aborted        string // set when the process can no longer be trusted (a goroutine is spinning)
+	known          map[string]bool
+	ids            int
+	hangs          int
+	lx             *dbProc // a second child, for the lexer stream (real tokenizer under a watchdog, parse-only runs)
+	realLoopBudget int
 }
 
 func (Engine) Run(ctx *hk.RunCtx) error {
@@ -59,9 +61,10 @@ func (Engine) Run(ctx *hk.RunCtx) error {
 		os.Stdout = devnull
 		defer func() { os.Stdout = stdout; devnull.Close() }()
 	}
-	r := &runner{ctx: ctx, res: ctx.Res, db: &dbProc{}, known: loadKnown(), ids: 1000}
+	r := &runner{ctx: ctx, res: ctx.Res, db: &dbProc{}, lx: &dbProc{}, known: loadKnown(), ids: 1000, realLoopBudget: 2}
 	defer r.db.close()
-	r.res.Rule = "SQL strings (fixed hostile list, sign/magnitude matrix of every numeric and duration parameter in four clause contexts, arity/argument-kind matrix for every dispatch-table function, generated queries and their token mutations) and insert scripts; distinct by canonical case JSON; non-trivial = sqlparser accepts the string (the dispatch in sql.go is reached) resp. the script contains at least one bad payload"
+	defer r.lx.close()
+	r.res.Rule = "SQL strings (fixed hostile list, sign/magnitude matrix of every numeric and duration parameter in four clause contexts, arity/argument-kind matrix for every dispatch-table function, generated queries and their token mutations; lexer level: sequences over quote, backslash, comment, number and bind-variable symbols at every token start of six skeleton queries, each with and without an open backtick identifier behind it, judged by sql.Parse returning in time and by the pre-scan agreeing with the real tokenizer, a reference port and the Lean model) and insert scripts; distinct by canonical case JSON; non-trivial = sqlparser accepts the string (the dispatch in sql.go is reached) resp. the script contains at least one bad payload"
 	if ctx.Model == nil {
 		r.res.Note("running without the model: property oracle only")
 	}
@@ -83,14 +86,31 @@ func (Engine) Run(ctx *hk.RunCtx) error {
 	}
 	idx := uint64(0)
 	next := func() uint64 { idx++; return idx }
+	phaseStart, phaseName := time.Now(), "corpus"
+	phase := func(name string) {
+		r.res.Note("phase %s: %.1fs", phaseName, time.Since(phaseStart).Seconds())
+		phaseStart, phaseName = time.Now(), name
+	}
+	defer phase("")
 	// ---- SQL stream
+	phase("hostile")
 	for _, s := range NonSelect() {
 		if r.aborted != "" {
 			break
 		}
 		r.sqlCase(s, "hostile", next())
 	}
+	// lexer-level stream: the pre-scan and the tokenizer must agree
+	phase("lexer")
+	nLex := ctx.N
+	for _, c := range lexCases(ctx.Tier != "quick", ctx.Seed, nLex) {
+		if r.aborted != "" {
+			break
+		}
+		r.lexCaseRun(c, next())
+	}
 	// sign / magnitude matrix of every numeric and duration parameter
+	phase("numeric")
 	for _, c := range numericCases(ctx.Tier != "quick", ctx.Seed) {
 		if r.aborted != "" {
 			break
@@ -101,6 +121,7 @@ func (Engine) Run(ctx *hk.RunCtx) error {
 	}
 	// every function of the dispatch tables × arity × argument kind × clause; the quick tier
 	// runs a third of its (smaller) matrix per run, rotating with the seed
+	phase("arity")
 	matrix := arityCases(ctx.Tier != "quick")
 	stride, offset := 1, 0
 	if ctx.Tier == "quick" {
@@ -115,6 +136,7 @@ func (Engine) Run(ctx *hk.RunCtx) error {
 		}
 		r.sqlCase(s, "arity", next())
 	}
+	phase("generated")
 	for i := 0; i < ctx.N && r.aborted == ""; i++ {
 		g := &sqlGen{r: hk.Derive(ctx.Seed, uint64(i))}
 		t := g.selectStmt(g.r.Range(0, 3), false)
@@ -137,6 +159,7 @@ func (Engine) Run(ctx *hk.RunCtx) error {
 		}
 	}
 	// ---- insert stream
+	phase("insert")
 	nScripts := ctx.N / 10
 	if nScripts < 20 {
 		nScripts = 20
@@ -198,6 +221,8 @@ func (r *runner) replay(path string, origin string) error {
 		return err
 	}
 	switch {
+	case c.SQL != nil && c.Stream == "lex":
+		r.lexCaseRun(lexCase{sql: *c.SQL, family: "replay"}, 0)
 	case c.SQL != nil:
 		r.sqlCase(*c.SQL, origin, 0)
 	case c.Script != nil:
